@@ -58,6 +58,21 @@ def handle : Handler := fun cmd j =>
     let fs := mkFs ((path, lines) :: (if stale then [(tmpName path, [['x']])] else []))
     pure <| Json.mkObj [("initial", ofStrs (parse lines)), ("tmp", ofChars (tmpName path)),
                         ("steps", Json.arr (go path (parse lines) fs reqs).toArray)]
+  | "c30.discard" => do
+    -- a flush whose body raises after the temp file was opened: `f.discard()` (theorem flush_discard_keeps_old)
+    let path ← chars j "path"
+    let lines ← (← getStrs j "lines").mapM (fun s => some s.toList)
+    let stale ← getBool j "stale_tmp"
+    let chunks ← (← getArr j "chunks").mapM fun c => match c with
+      | .arr a => a.toList.mapM fun x => match x with | .str s => some s.toList | _ => none
+      | _ => none
+    let fs := mkFs ((path, lines) :: (if stale then [(tmpName path, [['x']])] else []))
+    let ops := discardOps path chunks
+    pure <| Json.mkObj [
+      ("ops", Json.arr (ops.map opJson).toArray),
+      ("states", Json.arr ((prefixes ops).map fun pre =>
+          let fs' := run pre fs
+          Json.arr #[worldJson (readWorld fs' path), Json.bool (fs' (tmpName path)).isSome]).toArray)]
   | "c30.entry" => do
     let key ← chars j "key"
     let slot ← optLine j "slot"
